@@ -41,6 +41,7 @@ class Exit:
 
 def merge_heaps(c, h1, h2):
     heap = {}
+    pending = []
     for oid in set(h1) | set(h2):
         f1, f2 = h1.get(oid), h2.get(oid)
         if f1 is None or f2 is None:
@@ -48,8 +49,22 @@ def merge_heaps(c, h1, h2):
         d = {}
         for k in f1:
             if k in f2:
-                d[k] = f1[k] if f1[k] is f2[k] else merge(c, f1[k], f2[k])
+                a, b = f1[k], f2[k]
+                if a is b: d[k] = a
+                elif isinstance(a, VRef) and isinstance(b, VRef) and a.oid != b.oid and a.cls == b.cls:
+                    pending.append((oid, k, a, b)); d[k] = a
+                else: d[k] = merge(c, a, b)
         heap[oid] = d
+    # a field that refers to different container objects in the two branches (e.g. `self.buf = []` in one of them):
+    # a fresh object holding the merged contents takes their place (neither original is aliased elsewhere in the code under contract)
+    for oid, k, a, b in pending:
+        oa, ob = h1.get(a.oid), h2.get(b.oid)
+        if oa is None or ob is None: raise Unsupported("merge distinct refs")
+        key = "$l" if "$l" in oa and "$l" in ob else "$d" if "$d" in oa and "$d" in ob else None
+        if key is None: raise Unsupported("merge distinct refs")
+        new = new_oid()
+        heap[new] = {key: merge(c, oa[key], ob[key])}
+        heap[oid][k] = VRef(a.cls, new)
     return heap
 
 
